@@ -157,6 +157,15 @@ def cases(tier, seed):
         if ix % 5 == 3:
             c["wk"] = "frozenset" if ix % 2 else "keys"
         cs.append(c)
+    # the two extreme requests -- all sixteen groups, none -- from / to the extreme memberships, for every kind of destination
+    for dk, dn in dests:
+        for cur in ([], list(range(16)), [dn] if dk == "group" else [3]):
+            for want in (list(range(16)), [], list(range(15)), list(range(1, 16))):
+                curb = sorted(set(cur) | ({dn} if dk == "group" else set()))
+                c = {"kind": "sg", "cur": curb, "want": want, "dest": [dk, dn], "s2": 6, "cur2": []}
+                if dk == "unaddr":
+                    c["s1"] = 255
+                cs.append(c)
     # two sequences (two buses, one process) running interleaved: neither sees anything of the other
     sgs = [c for c in cs if c["kind"] == "sg"]
     grp = [c for c in sgs if c["dest"][0] in ("group", "bcast", "unaddr")]
